@@ -1,7 +1,38 @@
-import PprofVerif.Base.Tok
-/- Driver operations for C02. -/
+import PprofVerif.Model.Parse
+/- Driver operations for C02: the format dispatch and the binary legacy CPU parser model. -/
 namespace Driver.C02
-open PV
+open PV PV.LegacyCPU
 
-def ops : List (String × (List String → String)) := []
+def wrSlice : Slice → Wr
+  | none => ["nil"]
+  | some b => Wr.str b
+
+def wrSample (s : CPUSample) : Wr := Wr.list Wr.int s.values ++ Wr.list Wr.nat s.addrs
+
+def wrCPU (r : CPUResult) : Wr :=
+  [match r.flavour with | .cpp => "cpp" | .java => "java"] ++ [r.word.name] ++ Wr.int r.period ++
+  Wr.list wrSample r.samples ++ wrSlice r.rest
+
+def ops : List (String × (List String → String)) := [
+  -- legacy.cpu x<hex>  →  unrecognized | ok <flavour> <word> <period> <samples…> <rest> | panic <site>
+  ("legacy.cpu", fun ts =>
+    match Rd.run Rd.str ts with
+    | none => "bad-op"
+    | some b => match parseCPU b with
+      | .ok none => "unrecognized"
+      | .ok (some r) => "ok " ++ Wr.render (wrCPU r)
+      | .err _ => "err"
+      | .panic s => "panic " ++ s),
+  -- c02.dispatch x<hex>  →  proto <profile> | rejected | cpu <…> | text | panic <site>
+  ("c02.dispatch", fun ts =>
+    match Rd.run Rd.str ts with
+    | none => "bad-op"
+    | some b => match Parse.dispatch b with
+      | .ok (.proto p) => "proto " ++ Wr.render (Wr.profile p)
+      | .ok .rejected => "rejected"
+      | .ok (.legacyCPU r) => "cpu " ++ Wr.render (wrCPU r)
+      | .ok .legacyText => "text"
+      | .err _ => "err"
+      | .panic s => "panic " ++ s)
+]
 end Driver.C02
